@@ -1,7 +1,7 @@
 (* line: <fixF1 0/1> <fixF2 0/1> <sch> <ali> <seed> ; req ; req ...
    req : <body>/<befail 0|1>/<reuse 0|1>/<cali | ->      body: stmt | B:stmt,stmt,...
    stmt: ST CO RB QU DEn REn RTn SAv DDv
-   out : for every request  <impl reply>|<spec reply>   replies: A<sch>.<ali>  R  B<sch>.<ali> *)
+   out : H1|H0 (hist_ok) then for every request  <impl reply>|<spec reply>   replies: A<sch>.<ali>  R  B<sch>.<ali> *)
 let stmt_of s =
   let num () = n_of_int (int_of_string (String.sub s 2 (String.length s - 2))) in
   match String.sub s 0 2 with
@@ -33,7 +33,9 @@ let () =
            let rs = List.map req_of (List.filter (fun x -> x <> "") reqs) in
            let out = run (f1 = "1") (f2 = "1") (srv_init (n sch) (n ali) (n seed))
                          (spec_init (n sch) (n ali)) rs in
-           print_endline (String.concat " " (List.map (fun (a, b) -> rep a ^ "|" ^ rep b) out))
+           let ok = hist_ok (spec_init (n sch) (n ali)) rs in
+           print_endline ((if ok then "H1" else "H0") ^ " " ^
+                          String.concat " " (List.map (fun (a, b) -> rep a ^ "|" ^ rep b) out))
          | _ -> failwith "bad header")
       | [] -> print_endline ""
     done
